@@ -46,10 +46,13 @@ impl PixelDataReader for JpegAdapter {
         // `stride` it the total number of bytes for each sample plane
         let stride: usize = bytes_per_sample as usize * cols as usize * rows as usize;
         let base_offset = dst.len();
-        dst.resize(
-            base_offset + (samples_per_pixel as usize * stride) * nr_frames,
-            0,
-        );
+        let total = (samples_per_pixel as usize * stride)
+            .checked_mul(nr_frames)
+            .whatever_context("Decoded pixel data size is too large")?;
+        dst.try_reserve(total)
+            .ok()
+            .whatever_context("Could not allocate the decoded pixel data")?;
+        dst.resize(base_offset + total, 0);
 
         let raw = src
             .raw_pixel_data()
@@ -74,6 +77,9 @@ impl PixelDataReader for JpegAdapter {
                 .with_whatever_context(|_| format!("JPEG decoding failure on frame {i}"))?;
 
             let decoded_len = decoded.len();
+            if dst_offset + decoded_len > dst.len() {
+                whatever!("JPEG frame {i} is larger than the declared image size");
+            }
             dst[dst_offset..(dst_offset + decoded_len)].copy_from_slice(&decoded);
             dst_offset += decoded_len;
 
@@ -225,6 +231,9 @@ impl PixelDataReader for JpegAdapter {
             .whatever_context("JPEG decoder failure")?;
 
         let decoded_len = decoded.len();
+        if dst_offset + decoded_len > dst.len() {
+            whatever!("JPEG frame is larger than the declared image size");
+        }
         dst[dst_offset..(dst_offset + decoded_len)].copy_from_slice(&decoded);
 
         Ok(())
